@@ -403,12 +403,20 @@ class Client:
         :param password: clear password
         :return: True on success, False otherwise.
         """
-        extralines = [
-            b'"%s"' % base64.b64encode(login),
-            b'"%s"' % base64.b64encode(password),
-        ]
+        code, data, challenge = self.__send_command(
+            "AUTHENTICATE", [b"LOGIN"], withcontent=True, nblines=1
+        )
+        if code is not None:
+            return False
+        code, data, challenge = self.__send_command(
+            '"%s"' % base64.b64encode(login).decode("ascii"),
+            withcontent=True,
+            nblines=1,
+        )
+        if code is not None:
+            return False
         code, data = self.__send_command(
-            "AUTHENTICATE", [b"LOGIN"], extralines=extralines
+            '"%s"' % base64.b64encode(password).decode("ascii")
         )
         if code == "OK":
             return True
